@@ -119,12 +119,12 @@ Definition refresh_tag_eqb (a b : refresh_tag) : bool :=
 
 Section DtypeTags.
   (* platform facts (measured by the harness on torch directly, see harness/c03.py): is there a kernel? *)
-  Variable eigh_kernel : dtype -> bool.
-  Variable qr_kernel : dtype -> bool.
+  Variable eigh_kernel_supported : dtype -> bool.
+  Variable qr_kernel_supported : dtype -> bool.
 
   Definition eigh_tags (fdt : dtype) : refresh_tag :=
-    if eigh_kernel fdt then RComputed fdt
-    else if negb (dtype_eqb fdt F64) && eigh_kernel F64 then RComputed F64 else RNoKernel.
+    if eigh_kernel_supported fdt then RComputed fdt
+    else if negb (dtype_eqb fdt F64) && eigh_kernel_supported F64 then RComputed F64 else RNoKernel.
 
   (* [cast_estimate] = true: the current code; false: the code before commit 0ab4e53 *)
   Definition refresh_tags (cast_estimate : bool) (m : emethod) (pdt fdt : dtype) (estimate_nonzero : bool) : refresh_tag :=
@@ -133,7 +133,7 @@ Section DtypeTags.
     | MQR =>
         if estimate_nonzero then
           let qdt := if cast_estimate then fdt else pdt in
-          if dtype_eqb fdt qdt then (if qr_kernel fdt then RComputed fdt else RNoKernel) else RDtypeMismatch
+          if dtype_eqb fdt qdt then (if qr_kernel_supported fdt then RComputed fdt else RNoKernel) else RDtypeMismatch
         else eigh_tags fdt
     end.
 
